@@ -1,10 +1,10 @@
 SPECIFICATION GenSpec
 CONSTANTS
-  MaxDecls = 60
+  MaxDecls = 40
   Sample = TRUE
   WithPlans = FALSE
-  BlockBudget = 1000
-  MinDecls = 25
-  CallsOnly = FALSE
+  BlockBudget = 16
+  MinDecls = 14
+  CallsOnly = TRUE
   Rich = TRUE
 CHECK_DEADLOCK FALSE
